@@ -2509,6 +2509,27 @@ impl Compiler {
                 arrow.async_,
                 true, // is_arrow = true
             )?,
+            // Parameters with default values need the full parameter prologue: compile the
+            // expression body as `{ return expr; }`
+            crate::ast::ArrowFunctionBody::Expression(expr)
+                if arrow
+                    .params
+                    .iter()
+                    .any(|p| matches!(p.pattern, crate::ast::Pattern::Assignment(_))) =>
+            {
+                let body = [crate::ast::Statement::Return(crate::ast::ReturnStatement {
+                    argument: Some(expr.clone()),
+                    span: expr.span(),
+                })];
+                self.compile_function_body(
+                    &arrow.params,
+                    &body,
+                    name.clone(),
+                    false,
+                    arrow.async_,
+                    true, // is_arrow = true
+                )?
+            }
             crate::ast::ArrowFunctionBody::Expression(expr) => self
                 .compile_arrow_expression_body_with_name(&arrow.params, expr, arrow.async_, name)?,
         };
